@@ -272,7 +272,8 @@ def add(a: AV, b: AV, sub: bool = False) -> AV:
     if sub:
         b = neg(b)
     notes = a.notes | b.notes
-    if _varying(a) and _varying(b):
+    if _varying(a) and _varying(b) and a.mhi != INF and b.mhi != INF:
+        # bounded operands that may be correlated (cos(x)**2 + sin(x)**2): the interval sum can be too wide
         notes = notes | {"imprecise:sum of two varying terms"}
     if a.is_realish and b.is_realish:
         return real(a.lo + b.lo if not (a.lo == -INF or b.lo == -INF) else -INF,
